@@ -144,12 +144,14 @@ theorem list_schedule_in_priority_order (e : Env) (wf : WF e) (tr : Tree e) :
   obtain ⟨order, rest, h1, h2, _, _⟩ := runScenario_placement e wf tr
   exact ⟨order, rest, h1, h2⟩
 
-/-- **C07 for whole projects, teams** (`Proofs/TeamFit`): with the SAME placement order as `list_schedule_in_priority_order`, every
-    forward team task reported as scheduled — several pairwise different leaf resources, neither they (nor their groups) nor the
-    task (nor its containers) limited, no start of its own — occurs in the order, and between the slot of its dependency bound
-    and any slot in which it is booked, every slot in which ALL its members are on shift and not on leave carries the task on
-    every member, or some member carries there a task placed BEFORE it: the team takes the earliest slots in which all its
-    resources are working and unbooked. -/
+/-- **C07 for whole projects, teams** (`Proofs/TeamFit`, `Proofs/TeamLimits`): with the SAME placement order as
+    `list_schedule_in_priority_order`, every forward team task reported as scheduled — several pairwise different leaf
+    resources, no start of its own; the members, their groups, the task and its containers may all carry limits — occurs in the
+    order, and between the slot of its dependency bound and any slot in which it is booked, every slot in which ALL its members
+    are on shift and not on leave carries the task on every member, or some member carries there a task placed BEFORE it, or
+    some limit of a member or of the task has no room left in the period of that slot for the whole team (`TeamTight`: its
+    counter plus the other `|team| − 1` members reaches the limit): the team takes the earliest slots in which all its resources
+    are working, unbooked and within their limits. -/
 theorem team_earliest_fit (e : Env) (wf : WF e) (tr : Tree e) :
     ∃ order rest : List Nat, Placement e (runScenario e) order rest ∧
       ∀ t sel, TeamU e t sel → ((runScenario e).tst t).scheduled = true → ((runScenario e).tst t).forward = true →
@@ -157,10 +159,44 @@ theorem team_earliest_fit (e : Env) (wf : WF e) (tr : Tree e) :
           ∀ L m0, m0 ∈ sel → usageOf ((runScenario e).led.get m0 L).usage t ≠ none →
             ∀ i, boundSlot e (runScenario e) t ≤ i → i ≤ L → (∀ m ∈ sel, e.onShift m i = true ∧ e.leaveMark m i = false) →
               (∀ m ∈ sel, usageOf ((runScenario e).led.get m i).usage t ≠ none) ∨
-              ∃ m ∈ sel, ∃ t' ∈ pre, usageOf ((runScenario e).led.get m i).usage t' ≠ none := by
+              (∃ m ∈ sel, ∃ t' ∈ pre, usageOf ((runScenario e).led.get m i).usage t' ≠ none) ∨
+              TeamTight e (runScenario e) t sel i := by
   obtain ⟨order, rest, hp, hT⟩ := runScenario_placementT e wf tr
   exact ⟨order, rest, hp, fun t sel hel hs hf =>
     hT t sel hel (runScenario_scheduled_done e t ⟨hel.el.leaf, hel.el.effort, hel.el.nomile⟩ hs) hf⟩
+
+/-- what `TeamTight` says, spelled out: a member `m` of the team and a limit — one of `m`'s (own or inherited from a group), or one
+    of the task's (own or of a container) that applies to `m` — whose counter for the period of slot `i`, plus one booking for
+    each OTHER member of the team, reaches the limit's value -/
+theorem teamTight_iff (e : Env) (σ : St) (t : Nat) (sel : List Nat) (i : Int) :
+    TeamTight e σ t sel i ↔
+      ∃ m ∈ sel,
+        (∃ lid ∈ resLimitIds e m, ¬ ((e.limitD lid).res.isSome && (e.limitD lid).res != none) = true ∧
+          0 ≤ e.period (e.limitD lid) i ∧
+          (e.limitD lid).value ≤ σ.cnt.get lid (e.period (e.limitD lid) i) + ((sel.length : Int) - 1)) ∨
+        (∃ lid ∈ taskLimitIds e t, ¬ ((e.limitD lid).res.isSome && (e.limitD lid).res != some m) = true ∧
+          0 ≤ e.period (e.limitD lid) i ∧
+          (e.limitD lid).value ≤ σ.cnt.get lid (e.period (e.limitD lid) i) + ((sel.length : Int) - 1)) := Iff.rfl
+
+/-- **unlimited teams** (corollary): when neither the members (nor their groups) nor the task (nor its containers) carry limits,
+    the third case cannot occur -/
+theorem team_earliest_fit_unlimited (e : Env) (wf : WF e) (tr : Tree e) :
+    ∃ order rest : List Nat, Placement e (runScenario e) order rest ∧
+      ∀ t sel, TeamU e t sel → (∀ m ∈ sel, resLimitIds e m = []) → taskLimitIds e t = [] →
+        ((runScenario e).tst t).scheduled = true → ((runScenario e).tst t).forward = true →
+        ∃ post pre, order = post ++ t :: pre ∧
+          ∀ L m0, m0 ∈ sel → usageOf ((runScenario e).led.get m0 L).usage t ≠ none →
+            ∀ i, boundSlot e (runScenario e) t ≤ i → i ≤ L → (∀ m ∈ sel, e.onShift m i = true ∧ e.leaveMark m i = false) →
+              (∀ m ∈ sel, usageOf ((runScenario e).led.get m i).usage t ≠ none) ∨
+              ∃ m ∈ sel, ∃ t' ∈ pre, usageOf ((runScenario e).led.get m i).usage t' ≠ none := by
+  obtain ⟨order, rest, hp, hT⟩ := team_earliest_fit e wf tr
+  refine ⟨order, rest, hp, fun t sel hel hrl htl hs hf => ?_⟩
+  obtain ⟨post, pre, hsplit, hfit⟩ := hT t sel hel hs hf
+  refine ⟨post, pre, hsplit, fun L m0 hm0 hL i hb hi hall => ?_⟩
+  rcases hfit L m0 hm0 hL i hb hi hall with h1 | h1 | h1
+  · exact Or.inl h1
+  · exact Or.inr h1
+  · exact (teamTight_unlimited hrl htl h1).elim
 
 /-- every entry of the final ledger belongs to a task the loop placed (ghost order of `earliest_fit_in_placement_order`): at the
     level of one round, the ledger after scheduling `t0` holds entries of `t0` and of the tasks it held before, nothing else -/
